@@ -27,6 +27,19 @@ for pid in props:
                 break
         j += 1
     meta = eval(src[i:j + 1], {})
+    # the clause list grows with every strengthening: append the registered rule names and point at the as-built table
+    import re as _re
+    mr = _re.search(r"^RULES = \[(.*?)\]", src, _re.M | _re.S)
+    rules = _re.findall(r"'([^']+)'", mr.group(1)) if mr else []
+    row = None
+    dsrc = open(os.path.join(V, 'DESIGN.md')).read()
+    k = dsrc.find('### 11.3')
+    mrow = _re.compile(r'^\| %s \| ([^|]*) \| ([^|]*) \| (.*) \| ([^|]*) \|$' % pid, _re.M).search(dsrc, k) if k >= 0 else None
+    if mrow:
+        meta = dict(meta)
+        meta['text'] = meta['text'].rstrip() + ' As built (DESIGN.md §11.3): ' + mrow.group(3).replace('**', '').strip() + '. Registered clauses: ' + ', '.join(rules) + '.'
+        meta['note'] = meta['note'].rstrip() + ' Not decided (as built): ' + mrow.group(4).strip() + '.'
+        meta['design_ref'] = 'DESIGN.md §5 %s, §11.3, §11.6' % pid
     checks.append({
         'property_id': pid,
         'quick_cmd': './check %s --tier quick' % pid,
